@@ -470,6 +470,43 @@ def _task(tkey, name, tier):
             st_ = 'undecided' if (uns or resD[key] is None) else ('discharged' if resD[key] else 'violated')
             obs.append(dict(oid=f'M/{"accept-completable" if key == "D" else "reject-uncompletable"}/{tkey}/{a}', props=[prop], status=st_,
                             detail=(uns[0] if uns else resD[dk]), paths=resD['n'], model=resD[mk_], child=a, forward=None, needs_inv=True))
+    # ---- F: children supplied in document order: a viable next child is accepted (C02), under Inv
+    order = M.names_of(model)
+    for a in alpha:
+        resF = {'ok': True, 'd': None, 'm': None, 'n': 0, 'feasible': 0}
+
+        def harness_f(a=a):
+            e, c = fresh_container()
+            st = M.mkstate(mods, c)
+            cs = dict(cands(st))
+            for cid in alive:
+                if cid in cs:
+                    E.assume(cs[cid])
+            cn = cnt_by_name(st)
+            for b in order[order.index(a) + 1:]:
+                E.assume(cn[b] == 0)                      # nothing after a's position yet: document order
+            cn2 = dict(cn)
+            cn2[a] = cn[a] + 1
+            E.assume(M.viable_after_add_f(model, cn2, a))  # w.a is a viable prefix of the content model
+            resF['feasible'] += 1
+            el = lib.child(a)
+            try:
+                c.add_element(el, None, False)
+                out = 'ok'
+            except Exception as ex:
+                out = type(ex).__name__
+            resF['n'] += 1
+            if out != 'ok' and resF['ok']:
+                resF['ok'] = False
+                resF['d'] = f'{a} supplied in document order as a viable next child is rejected ({out})'
+                resF['m'] = _model_state(st)
+            return out
+        rs = E.explore(harness_f, maxpaths=4000, timeout=budget, query_timeout_ms=qt)
+        paths_total += len(rs)
+        uns = [r.detail for r in rs if r.status == 'unsupported']
+        st_ = 'undecided' if (uns or resF['n'] == 0) else ('discharged' if resF['ok'] else 'violated')
+        obs.append(dict(oid=f'M/accept-in-order/{tkey}/{a}', props=['C02'], status=st_, detail=(uns[0] if uns else (resF['d'] or ('no feasible in-order pre-state (vacuous)' if resF['n'] == 0 else None))),
+                        paths=resF['n'], model=resF['m'], child=a, needs_inv=True))
     return dict(tkey=tkey, name=name, obligations=obs, seconds=round(time.time() - t_start, 1), paths=paths_total, wrapped=wrapped, invariant=inv_note)
 
 
